@@ -10,9 +10,10 @@ CONSTANTS
   CountAll = FALSE
   InitISRs = {{"r1", "r2"}, {"r1", "r2", "r3"}, {"r1", "r2", "r3", "r4"}}
   L0 = "r1"
-  PairSels = {"cur", "sl", "prev"}
+  PairSels = {"cur", "sl", "first"}
   MaxOps = 4
   Faults = TRUE
+  EffectiveOnly = FALSE
   MaxPend = 0
 INVARIANTS TypeOK C07_LeaderInISR StatusLive WitnessesAreGood PersistedISR
 PROPERTIES StepsOK
